@@ -18,3 +18,4 @@ import Proofs.Gen
 #print axioms Xsel.C12.lang_builtin_set
 #print axioms Xsel.C12.count_spec
 #print axioms Xsel.Gen.builtins_agree
+#print axioms Xsel.Gen.builtins_table_agree
